@@ -85,7 +85,7 @@ def main(tier, seed):
         sel = progs if policy == "paced" else progs[:12] + progs[12::6]
         if policy == "always":
             sel = [(n, s.replace("0..3000", "0..150").replace("0..20000", "0..300")) for n, s in sel]
-        cases = [{"id": n, "main": s, "modules": modules, "gc": "default", "events": 1 | 16} for n, s in sel]
+        cases = [{"id": n, "main": s, "modules": modules, "gc": "default", "events": 1 | 16, "boot_events": True} for n, s in sel]
         replies = Pool(binary, "run", timeout=300).map(cases)
         path = os.path.join(vlib.WORK, "traces", "c16-%s-%d.ndjson" % (bname, os.getpid()))
         os.makedirs(os.path.dirname(path), exist_ok=True)
